@@ -16038,7 +16038,7 @@ int cg_multifam_write(const char *name, const char *family)
     cgns_famname *famname;
     int ier=0;
     cgsize_t dim_vals;
-    double posit_id, dummy_id;
+    double posit_id;
 
     CHECK_FILE_OPEN
 
@@ -16061,7 +16061,7 @@ int cg_multifam_write(const char *name, const char *family)
 
     if (cgi_posit_id(&posit_id)) return CG_ERROR;
     dim_vals = (cgsize_t)strlen(family);
-    if (cgi_new_node(posit_id, name, "AdditionalFamilyName_t", &dummy_id,
+    if (cgi_new_node(posit_id, name, "AdditionalFamilyName_t", &famname->id,
         "C1", 1, &dim_vals, (void *)family)) return CG_ERROR;
 
     return CG_OK;
